@@ -13,8 +13,8 @@ from math import pi, sqrt
 from pyparsing import (Literal, Optional, White, Regex,
                        ZeroOrMore, OneOrMore, Forward, StringEnd, Group)
 
-from .core import default_table, isatom, isisotope, change_table
-from .constants import avogadro_number
+from .core import default_table, isatom, isisotope, ision, change_table
+from .constants import avogadro_number, electron_mass
 from .util import require_keywords, cell_volume
 
 PACKING_FACTORS = dict(cubic=pi/6, bcc=pi*sqrt(3)/8, hcp=pi/sqrt(18),
@@ -338,10 +338,12 @@ class Formula(object):
         """
         total_natural_mass = total_isotope_mass = 0
         for el, count in self.atoms.items():
-            try:
-                natural_mass = el.element.mass
-            except AttributeError:
-                natural_mass = el.mass
+            # Mass with the isotope replaced by the natural element, keeping
+            # the charge of the ion.
+            natural = el.element if ision(el) else el
+            if isisotope(natural):
+                natural = natural.element
+            natural_mass = natural.mass - electron_mass*el.charge
             total_natural_mass += count * natural_mass
             total_isotope_mass += count * el.mass
         return total_natural_mass/total_isotope_mass
